@@ -365,6 +365,7 @@ class Exec:
         self.pow_seen = set()
         self.trusted = set()      # names of callee contracts / assumed functions actually used
         self.fresh_n = itertools.count()
+        self.loops_without_invariant = set()
 
     @staticmethod
     def _loops_in_order(fn):
@@ -381,6 +382,8 @@ class Exec:
         return out
 
     # ---- helpers
+    loops_without_invariant = None
+
     def fresh(self, sort, name='v'):
         return z3.Const(f'{name}!{next(self.fresh_n)}', sort)
 
@@ -839,6 +842,9 @@ class Exec:
             if o.kind == 'tuple': return VI(len(o.t))
             if o.kind == 'str': return VI(z3.Length(o.t))
             if o.kind == 'comp' and not o.x['conds']: return self.builtin_len_src(o.x['src'])
+            if o.kind == 'comp':
+                m = self.materialise(st, o)
+                if m.kind in ('seq', 'set'): return VI(z3.Length(m.t))
             if o.kind == 'map' and o.get('size') is not None: return VI(o.get('size'))
             if o.kind == 'mapiter' and o.x['m'].get('size') is not None: return VI(o.x['m'].get('size'))
             raise OutOfReach(f'len of {o.kind}')
@@ -1326,8 +1332,17 @@ class Exec:
         """loop invariant k at state st. A contract may return {'prove': F, 'assume': L}: L is a lemma instance (an assumed
         mathematical fact about the loop's ghost functions, listed in the evidence); it is only added where the invariant is ASSUMED."""
         invs = self.c.get('invariants', {})
-        if k not in invs: raise OutOfReach(f'loop {k} has no invariant in the contract')
-        r = invs[k](st)
+        if k not in invs:
+            # a loop the contract does not know (new in the source): cut with the invariant 'true' -- everything the loop assigns is unknown
+            # afterwards; sound, and whatever the function's postcondition needs from the loop will simply fail to be proved
+            self.loops_without_invariant.add(k)
+            return z3.BoolVal(True)
+        try:
+            r = invs[k](st)
+        except KeyError as ex_:
+            # the invariant names a local variable that the current source no longer has: it cannot be stated, hence not proved
+            self.loops_without_invariant.add(k)
+            return z3.BoolVal(False) if not assume else z3.BoolVal(True)
         lem = None
         if isinstance(r, dict): r, lem = r['prove'], r.get('assume')
         if isinstance(r, (list, tuple)): r = z3.And(*r) if r else z3.BoolVal(True)
